@@ -211,6 +211,20 @@ func genC12(env *core.Env, emit func(core.Case)) {
 	add := func(stream, sig string, b []byte) { items = append(items, item{b, stream, sig}) }
 	// hand-written witnesses: pointer cycles
 	add("witness", "label-then-pointer-cycle", []byte{0, 0, 1, 0, 0, 1, 0, 0, 0, 0, 0, 0, 1, 'a', 0xc0, 0x0c})
+	// compression pointers aimed exactly at the end of the message (and one past it), in a question name, an
+	// owner name and a name inside RDATA
+	add("witness", "pointer-to-end/question", []byte{0, 0, 0x81, 0x80, 0, 1, 0, 0, 0, 0, 0, 0, 0xc0, 0x0e})
+	add("witness", "pointer-past-end/question", []byte{0, 0, 0x81, 0x80, 0, 1, 0, 0, 0, 0, 0, 0, 0xc0, 0x0f})
+	add("witness", "pointer-to-end/label-then-pointer", []byte{0, 0, 0x81, 0x80, 0, 1, 0, 0, 0, 0, 0, 0, 1, 'a', 0xc0, 0x10})
+	{
+		m := []byte{0, 0, 0x81, 0x80, 0, 1, 0, 1, 0, 0, 0, 0, 1, 'a', 0, 0, 5, 0, 1}
+		m = append(m, 0xc0, 0x0c, 0, 5, 0, 1, 0, 0, 0, 60, 0, 2)
+		m = append(m, 0xc0, byte(len(m)+2))
+		add("witness", "pointer-to-end/rdata", m)
+		o := append([]byte{0, 0, 0x81, 0x80, 0, 1, 0, 1, 0, 0, 0, 0, 1, 'a', 0, 0, 1, 0, 1}, 0xc0, 0)
+		o[len(o)-1] = byte(len(o))
+		add("witness", "pointer-to-end/owner", o)
+	}
 	add("witness", "self-pointer", []byte{0, 0, 1, 0, 0, 1, 0, 0, 0, 0, 0, 0, 0xc0, 0x0c, 0, 1, 0, 1})
 	add("witness", "two-label-cycle", []byte{0, 0, 1, 0, 0, 1, 0, 0, 0, 0, 0, 0, 1, 'a', 1, 'b', 0xc0, 0x0e, 0, 1, 0, 1})
 	{ // long backward pointer chain: each pointer points to the previous one
